@@ -174,6 +174,23 @@ func (dt DateTime) Less(input Any) (Boolean, error) {
 // Add returns the result of dt + input. Returns an
 // error if input does not represent a valid time valued quantity.
 func (dt DateTime) Add(input Quantity) (DateTime, error) {
+	// Handle partial dates by converting the quantity to the value's precision
+	// first, as Sub does (e.g. 2020T + 365 days = 2021T).
+	if dt.l == dtYearLayout {
+		years, err := input.toYears()
+		if err != nil {
+			return DateTime{}, err
+		}
+		return DateTime{dt.dateTime.AddDate(years, 0, 0), dt.l}, nil
+	}
+	if dt.l == dtMonthLayout {
+		months, err := input.toMonths()
+		if err != nil {
+			return DateTime{}, err
+		}
+		return DateTime{dt.dateTime.AddDate(0, months, 0), dt.l}, nil
+	}
+
 	var result time.Time
 	value := int(decimal.Decimal(input.value).IntPart())
 	switch input.unit {
@@ -191,6 +208,7 @@ func (dt DateTime) Add(input Quantity) (DateTime, error) {
 		if err != nil {
 			return DateTime{}, err
 		}
+		duration = roundToDateTimePrecision(dateTimeMap[dt.l], duration)
 		result = dt.dateTime.Add(duration)
 	}
 
